@@ -422,7 +422,7 @@ p_crypto_hash_gost3411_update (PHashGOST3411	*ctx,
 
 	pp_crypto_hash_gost3411_sum_256 (ctx->len, len256);
 
-	if (left && (puint32) len >= to_fill) {
+	if (left && (puint64) len >= to_fill) {
 		memcpy ((pchar *) ctx->buf + left, data, to_fill);
 		pp_crypto_hash_gost3411_swap_bytes (ctx->buf, 8);
 		pp_crypto_hash_gost3411_process (ctx, ctx->buf);
